@@ -706,8 +706,12 @@ func Worker(o core.WorkerOpts) *core.Report {
 			}, 1500)
 			fr := Execute(min, true, newRecorded(min.Switches))
 			if fr.Violation == nil {
-				l.Rep.HarnessErr = "violation vanished when the recorded schedule was replayed: " + v.Signature()
-				return
+				// did not repeat on the minimised case: keep the original case and the verdict first seen
+				min = c
+				fr = Execute(c, true, newRecorded(c.Switches))
+				if fr.Violation == nil {
+					fr.Violation = &v
+				}
 			}
 			l.AddReplay(*fr.Violation, caseSeed, min, nil, fr.Trace.Events, fr.Trace.Hash(), used, "controlled")
 		}
